@@ -312,9 +312,13 @@ Definition monitors (P : params) (tbl : list (list validator)) (blks : list lblk
   let fwd := filter (fun x => first_h <=? fst x) fresh in
   [ (* 1: every newly stored header is reachable from the trusted ones by valid steps *)
     viol (forallb (fun x => in_tags (snd x) cl) fresh) 1;
-    (* 2: a header stored by forward verification was returned, identical, by a provider that is
-          a witness after the call *)
-    viol (forallb (fun x => existsb (fun '(p, _, r) => (r =? snd x) && existsb (Z.eqb p) (obs_wits after))
+    (* 2: a header stored by forward verification was returned, identical, during the call by a
+          provider that is a witness after the call AND is not the primary the header was verified
+          with (the primary of the cross-check = the primary after the call: detectDivergence is the
+          last step of a successful call).  A primary that also sits in the witness list answering
+          its own header is no confirmation (F50). *)
+    viol (forallb (fun x => existsb (fun '(p, _, r) => (r =? snd x) && existsb (Z.eqb p) (obs_wits after)
+                                                       && negb (p =? obs_prim after))
                                     (obs_log after)) fwd) 2;
     (* 3: a witness whose last answer for that height was a different header is not a witness any more *)
     viol (forallb (fun x => forallb (fun p => match last_answer (obs_log after) p (fst x) with
